@@ -5,6 +5,10 @@ use crate::util::Stats;
 use std::io::Write;
 
 pub mod url;
+pub mod alt;
+pub mod refs;
+pub mod pstate;
+pub mod nest;
 pub mod inlineops;
 pub mod ruler;
 pub mod eset;
@@ -42,6 +46,10 @@ pub type StreamFn = fn(n: usize, rng: &mut Rng, out: &mut Out);
 pub fn streams() -> Vec<(&'static str, StreamFn)> {
     vec![
         ("url", url::run as StreamFn),
+        ("alt", alt::run as StreamFn),
+        ("refs", refs::run as StreamFn),
+        ("pstate", pstate::run as StreamFn),
+        ("nest", nest::run as StreamFn),
         ("inlineops", inlineops::run as StreamFn),
         ("ruler", ruler::run as StreamFn),
         ("eset", eset::run as StreamFn),
